@@ -58,7 +58,7 @@ func (w *World) partialStep(st *Step) {
 		proof = utreexo.Proof{Targets: w.encTargets(st.Pf.T, R), Proof: w.sy.Hs(st.Pf.P)}
 	}
 	switch st.A {
-	case "mod":
+	case "mod", "badmod":
 		hashes = w.leafHashes(st.D)
 	case "vrem", "ingest", "prune":
 		hashes = w.leafHashes(st.S)
@@ -125,6 +125,17 @@ func (w *World) partialStep(st *Step) {
 				}
 				err = in.M.Modify(g.L("adds", leaves), g.H("delHashes", hashes),
 					utreexo.Proof{Targets: g.U("proof.Targets", proof.Targets), Proof: g.H("proof.Proof", proof.Proof)})
+			case "badmod":
+				// a block that deletes a leaf the instance does not remember: it must be refused
+				leaves := make([]utreexo.Leaf, st.K)
+				for i := range leaves {
+					leaves[i] = utreexo.Leaf{Hash: w.sy.H(leafTerm(int(w.n) + i)), Remember: true}
+				}
+				e := in.M.Modify(g.L("adds", leaves), g.H("delHashes", hashes),
+					utreexo.Proof{Targets: g.U("proof.Targets", proof.Targets), Proof: g.H("proof.Proof", proof.Proof)})
+				if e == nil {
+					w.fail(props, in, "badmod.accepted", "a block deleting a leaf that the partial forest does not remember was applied", "error", "nil")
+				}
 			case "vrem":
 				err = in.M.Verify(g.H("delHashes", hashes),
 					utreexo.Proof{Targets: g.U("proof.Targets", proof.Targets), Proof: g.H("proof.Proof", proof.Proof)}, true)
